@@ -21,12 +21,12 @@ RULE = ("(A) Hypothesis-generated independent-boson models: commuting pair H=V d
 TECHNIQUE = "Hypothesis property-based testing against closed-form / explicit-simulation reference models"
 LEVEL_TEXT = ("Generated exactly solvable models are compared at every time step with an analytic solution whose memory "
               "kernel integrals come from an independent quadrature, and with an explicit system+modes simulation. "
-              "Exploration over the stated parameter ranges at small sizes; conditioned inputs (D<=5).")
+              "Exploration over the stated parameter ranges at small sizes; conditioned inputs (D<=3.5).")
 LEVEL_NOTE = ("Tolerance = c_T (N+1) epsrel + 1e-7 (c_T=100 TEMPO, 1000 PT-TEMPO) + quadrature term "
               "10 n_cells (1.49e-8 + epsrel |eta|) |o|^2 (+5e-4 |eta| for sub-ohmic T>0). Trusts vlib/refs/corr.py, ibm.py.")
 ASSUMPTIONS = [
     "documented memory semantics R-mem: cell (k,k') kept iff k-k' <= dkmax, the k-k' = dkmax cell replaced by the rectangle of extent min((k+1-K)dt, dt+tau) when add_correlation_time=tau",
-    "TEMPO inputs are conditioned (D <= 5) and size-coupled as in DESIGN section 4",
+    "TEMPO inputs are conditioned (D <= 3.5) and size-coupled as in DESIGN section 4",
 ]
 
 
@@ -76,7 +76,7 @@ def run_ibm(case):
               "tau=" + str(p["tau"]), "T=0" if T == 0 else "T>0", "cutoff=" + sd["cutoff_type"], sd["type"],
               "rotated" if b["V"]["kind"] != "identity" else "diagonal",
               "unique" if case["unique"] else "not-unique", f"d={d}",
-              "D<0.5" if D < 0.5 else ("D<2" if D < 2 else "D<=5"))
+              "D<0.5" if D < 0.5 else ("D<2" if D < 2 else "D<=3.5"))
     if gens.guard_crossed(sd):
         out.label("guard-crossed")
     if case["deph"]:
